@@ -641,13 +641,8 @@ Fixpoint params_from (row col : nat) (prev : option nat) (bs : list oblock) : op
   end.
 Definition parameters_from_blocks (bs : list oblock) : option (list oparam) := params_from 1 1 None bs.
 
-(* triangular_root(len(inits)) : the n with n(n+1)/2 = k (searched upwards; k is small) *)
-Fixpoint tri_root_from (fuel n k : nat) : nat :=
-  match fuel with
-  | 0 => n
-  | S f => if n * (n + 1) / 2 <? k then tri_root_from f (S n) k else n
-  end.
-Definition triangular_root (k : nat) : nat := tri_root_from k 0 k.
+(* triangular_root(x) = math.floor(math.sqrt(2 * x))  (= n when x = n(n+1)/2) *)
+Definition triangular_root (k : nat) : nat := Nat.sqrt (2 * k).
 
 Inductive level := IIV | IOV | RUV.
 (* one distribution: the eta numbers it covers, its level, and its covariance given as indices
@@ -671,3 +666,92 @@ Definition rvs_from_blocks (is_eps : bool) (bs : list oblock) : list rvdist := r
 (* SPECIFICATION: the positions of a full lower triangle of size n whose first row is r0 *)
 Definition tri_positions (r0 n : nat) : list (nat * nat) :=
   flat_map (fun i => map (fun j => (r0 + i, r0 + j)) (seq 0 (S i))) (seq 0 n).
+
+(* ------------------------------------------------------------------------------------------ *)
+(* 7. OmegaRecord.parse: the numeric forms of a BLOCK record (and of a DIAGONAL item)           *)
+(*    A lower triangle is a list of rows, row i having i + 1 entries.                           *)
+Local Open Scope Q_scope.
+Inductive oform := FVarCov | FSdCov | FVarCorr | FSdCorr | FChol.
+Inductive ores := OOk (inits : list Q) | OSyntaxError | OInternalError.
+
+(* fix, sd, corr, cholesky = self._block_flags();  `if not cholesky: ... else: L @ L.T` *)
+Definition form_of_flags (sd corr chol : bool) : oform :=
+  if chol then FChol
+  else match sd, corr with
+       | false, false => FVarCov | true, false => FSdCov | false, true => FVarCorr | true, true => FSdCorr
+       end.
+
+Definition tget (rows : list (list Q)) (i j : nat) : Q := nth j (nth i rows []) 0.
+Definition tri_build (n : nat) (f : nat -> nat -> Q) : list (list Q) :=
+  map (fun i => map (fun j => f i j) (seq 0 (S i))) (seq 0 n).
+
+(* flattened_to_symmetric(inits): cut the flat list into rows of length 1, 2, ..., n *)
+Fixpoint unflatten (i n : nat) (flat : list Q) : list (list Q) :=
+  match n with
+  | O => []
+  | S m => firstn (S i) flat :: unflatten (S i) m (skipn (S i) flat)
+  end.
+
+Fixpoint qsum (l : list Q) : Q := match l with [] => 0 | x :: tl => x + qsum tl end.
+
+Section OmegaForms.
+  Variable sqrt : Q -> Q.
+
+  (* entry (i, j), j <= i, of the matrix A after the in-place conversions of parse():
+       if corr: A[i,j] = (A[i,i]*A[j,j] if sd else sqrt(A[i,i])*sqrt(A[j,j])) * A[i,j]   (i != j)
+       if sd:   diagonal squared
+       cholesky: (L @ L.T)[i,j] = sum_k L[i,k]*L[j,k]  (L is lower triangular: k <= j suffices) *)
+  Definition parse_entry (f : oform) (rows : list (list Q)) (i j : nat) : Q :=
+    let a := tget rows in
+    match f with
+    | FVarCov => a i j
+    | FSdCov => if Nat.eqb i j then a i i * a i i else a i j
+    | FVarCorr => if Nat.eqb i j then a i i else sqrt (a i i) * sqrt (a j j) * a i j
+    | FSdCorr => if Nat.eqb i j then a i i * a i i else a i i * a j j * a i j
+    | FChol => qsum (map (fun k => a i k * a j k) (seq 0 (S j)))
+    end.
+
+  Definition parse_form (f : oform) (rows : list (list Q)) : list (list Q) :=
+    tri_build (length rows) (parse_entry f rows).
+
+  (* the inits of the block returned by parse().  OSyntaxError = ModelSyntaxError('Wrong number of inits
+     in BLOCK'); a non-triangular number of inits with size = floor(sqrt(2*len)) passes that test and fails
+     inside numpy (ValueError: shape mismatch) = OInternalError *)
+  Definition omega_block_parse (size : nat) (sd corr chol : bool) (vals : list Q) : ores :=
+    if negb (Nat.eqb size (triangular_root (length vals))) then OSyntaxError
+    else if negb (Nat.eqb (size * (size + 1) / 2) (length vals)) then OInternalError
+    else OOk (concat (parse_form (form_of_flags sd corr chol) (unflatten 0 size vals))).
+
+  (* a DIAGONAL item: if sd: init = init**2 *)
+  Definition diag_item_parse (sd : bool) (v : Q) : Q := if sd then v * v else v.
+
+  (* SPECIFICATION (NONMEM users guide, $OMEGA: VARIANCE|STANDARD, COVARIANCE|CORRELATION, CHOLESKY):
+     the covariance matrix a record denotes, as a function of the FULL symmetric matrix M of the
+     values written (M i j for any i, j < n) *)
+  Definition nm_cov (f : oform) (n : nat) (M : nat -> nat -> Q) (i j : nat) : Q :=
+    match f with
+    | FVarCov => M i j
+    | FSdCov => if Nat.eqb i j then M i i * M i i else M i j                        (* sd on the diagonal, covariances off it *)
+    | FVarCorr => if Nat.eqb i j then M i i else M i j * (sqrt (M i i) * sqrt (M j j))  (* cov = r * sd_i * sd_j *)
+    | FSdCorr => if Nat.eqb i j then M i i * M i i else M i j * (M i i * M j j)
+    | FChol => (* M holds L (zero above the diagonal): Sigma = L * L^T, full sums *)
+        qsum (map (fun k => (if (k <=? i)%nat then M i k else 0) * (if (k <=? j)%nat then M j k else 0)) (seq 0 n))
+    end.
+
+  (* how a covariance matrix S (lower triangle, positive diagonal) is written in form f *)
+  Definition encode_entry (f : oform) (S : list (list Q)) (i j : nat) : Q :=
+    let s := tget S in
+    match f with
+    | FVarCov | FChol => s i j
+    | FSdCov => if Nat.eqb i j then sqrt (s i i) else s i j
+    | FVarCorr => if Nat.eqb i j then s i i else s i j / (sqrt (s i i) * sqrt (s j j))
+    | FSdCorr => if Nat.eqb i j then sqrt (s i i) else s i j / (sqrt (s i i) * sqrt (s j j))
+    end.
+  Definition encode (f : oform) (S : list (list Q)) : list (list Q) := tri_build (length S) (encode_entry f S).
+End OmegaForms.
+
+Definition sym_of (rows : list (list Q)) (i j : nat) : Q := if (j <=? i)%nat then tget rows i j else tget rows j i.
+
+(* executable square root for the correspondence: exact on rational squares (Base/Interp.v) *)
+Definition sqrt_exact (x : Q) : Q := match q_sqrt x with Some y => y | None => 0 end.
+Local Close Scope Q_scope.
